@@ -293,6 +293,8 @@ func encLogs(m map[int][]string) string {
 	return strings.Join(parts, ";")
 }
 
+var c19TimedOut int
+
 func c19Emit(e *emitter, main []string) {
 	// settle: deliver everything pending to live clients, snapshot, then drain (cancel, exit, drop)
 	m := &c19Mirror{clients: map[int]*[3]bool{}}
@@ -363,7 +365,14 @@ func c19Emit(e *emitter, main []string) {
 	if !e.mine(key) {
 		return
 	}
+	// once a number of schedules have run into time-outs the violation is established: do not spend minutes on the rest
+	if c19TimedOut >= 12 {
+		return
+	}
 	obs := c19Run(full, snapshotAt)
+	if obs.note != "" {
+		c19TimedOut++
+	}
 	note := obs.note
 	if note == "" {
 		note = "-"
@@ -389,6 +398,7 @@ func runC19(e *emitter, tier string, seed uint64) {
 	if e.onlyCorpus {
 		return
 	}
+	c19SlowReader(e)
 	// the witness of the repaired defect and small hand-written churn schedules
 	for _, s := range [][]string{
 		{"s1", "b", "c1", "e1", "x1.0"},
@@ -543,4 +553,52 @@ func runC19(e *emitter, tier string, seed uint64) {
 		}
 		c19Emit(e, sched)
 	}
+}
+
+
+type slowWriter19 struct {
+	recWriter
+	first chan struct{}
+	hold  time.Duration
+	once  sync.Once
+}
+
+func (w *slowWriter19) Write(p []byte) (int, error) {
+	if strings.Contains(string(p), "event: message") {
+		w.once.Do(func() { close(w.first); time.Sleep(w.hold) })
+	}
+	return w.recWriter.Write(p)
+}
+
+// c19SlowReader: real time. A connected client whose connection is backed up for several seconds (its handler is blocked
+// in Write) must still receive every event broadcast meanwhile, and a prompt client must not wait for it.
+func c19SlowReader(e *emitter) {
+	if !e.mine("slowreader") {
+		return
+	}
+	c19Current = nil // no parking: deliveries run freely
+	h := sse.New()
+	slow := &slowWriter19{recWriter: recWriter{hdr: http.Header{}}, first: make(chan struct{}), hold: 3600 * time.Millisecond}
+	fast := &recWriter{hdr: http.Header{}}
+	ctx, cancel := context.WithCancel(context.Background())
+	defer cancel()
+	var wg sync.WaitGroup
+	for _, w := range []http.ResponseWriter{slow, fast} {
+		wg.Add(1)
+		go func(w http.ResponseWriter) { defer wg.Done(); h.ServeHTTP(w, httptest.NewRequest("GET", "/", nil).WithContext(ctx)) }(w)
+	}
+	time.Sleep(100 * time.Millisecond)
+	const n = 5
+	t0 := time.Now()
+	h.Send("message", "0")
+	<-slow.first // the slow client is now stuck writing event 0
+	for i := 1; i < n; i++ {
+		h.Send("message", fmt.Sprint(i))
+	}
+	fastOK := waitFor(func() bool { return len(fast.got()) >= n }, 1500*time.Millisecond)
+	fastAt := time.Since(t0)
+	slowOK := waitFor(func() bool { return len(slow.got()) >= n }, 6*time.Second)
+	cancel()
+	wg.Wait()
+	e.emit("slowreader", "slow", fmt.Sprint(n), fmt.Sprint(len(slow.got())), fmt.Sprint(len(fast.got())), b01(fastOK), b01(slowOK), fmt.Sprint(fastAt.Milliseconds()))
 }
